@@ -67,6 +67,8 @@ TickClauses(e) ==
        <<"C12.cancelled-command-finalized", mustFinalize \subseteq finalized>>,
        <<"C12.cancelled-pause-ends", mustUnpause /\ ~otherPause => ~e.paused \/ e.err>>,
        <<"C12.cancelled-hold-ends", mustUnhold /\ ~otherHold => ~e.holding>>,
+       \* (a Watch that was forced right after its first visit still has its registration tick before its first turn as an
+       \*  interrupt, exactly like an unforced Watch whose condition already holds: one more tick)
        <<"C12.force-proceeds",     \* two tick boundaries at which the run progresses after the force: the interpreter ran in between
          \A f \in forced : (f[4] = "" /\ ForceDue(f, e)) => f[1] \in SetOfSeq(e.proceededEver)>>,
        \* the forced item belongs to an earlier invocation of its line (alarm or macro body run again since): the item was
@@ -121,7 +123,7 @@ Step ==
               /\ mustUnpause' = (mustUnpause \/ (e.k = "cancel" /\ e.res = "ok" /\ e.kind = "pause"))
               /\ mustUnhold' = (mustUnhold \/ (e.k = "cancel" /\ e.res = "ok" /\ e.kind = "hold"))
               /\ forced' = IF e.k = "force" /\ e.res = "ok" /\ e.kind \in {"watch", "wait", "threshold"}
-                           THEN forced \cup {<<e.node, e.t, e.runId, IF e.stale THEN "stale" ELSE "">>} ELSE forced
+                           THEN forced \cup {<<e.node, e.t + (IF e.kind = "watch" THEN 1 ELSE 0), e.runId, IF e.stale THEN "stale" ELSE "">>} ELSE forced
               /\ UNCHANGED <<inited, execed, finalized, tickExec, p, newRun, otherPause, otherHold>>
          [] e.e = "runStopped" ->
               /\ viols' = AddViols(viols, Failing(<< <<"C10.run-log-producible", e.exc = "none">>,
